@@ -20,7 +20,7 @@ import (
 	"ddpmc/internal/rx"
 )
 
-var c09UnitValue = []string{"", "", "", "1", "-1", "5", "tt", "7", "s"}
+var c09UnitValue = []string{"", "", "", "1", "-1", "5", "tt", "7", "s", "2"}
 
 type c09E2ECase struct {
 	W      int      `json:"w"` // index of the population in the group
